@@ -15,6 +15,7 @@ mod admission;
 mod hsim;
 mod hdrive;
 mod attack;
+mod expiry;
 
 fn main() {
     clock::self_test();
@@ -38,6 +39,7 @@ fn main() {
         "C11" => nodes::run(&args),
         "C12" => admission::run(),
         "C01" => attack::run_c01(),
+        "C15" => expiry::run(),
         "C04" => hdrive::run("C04"),
         "C13" => hdrive::run("C13"),
         "C03" => hdrive::run("C03"),
@@ -64,6 +66,7 @@ fn replay(args: &[String]) {
         "hsim" => match v["replay"]["driver"].as_str().unwrap_or("") {
             "hdrive" => hdrive::replay(&v["replay"], prop),
             "attack" => attack::replay(&v["replay"], prop),
+            "expiry" => expiry::replay(&v["replay"]),
             d => { eprintln!("no replayer for hsim driver {d}"); std::process::exit(2); }
         },
         e => { eprintln!("no replayer for engine {e}"); std::process::exit(2); }
